@@ -380,6 +380,30 @@ static const char* numeric_range_convertible_types()
     return "cihTF";
 }
 
+//! Returns whether @a lhs and @a rhs are equal and also print equal;
+//! 0.0 == -0.0, but "2x0.0" would lose the sign of the second value
+static int range_args_identical(const rtosc_arg_val_t* lhs,
+                                const rtosc_arg_val_t* rhs)
+{
+    if(!rtosc_arg_vals_eq_single(lhs, rhs, NULL))
+        return 0;
+    size_t size = incsize(lhs); // arrays: look at all elements
+    if(size != incsize(rhs))
+        return 0;
+    for(size_t i = 0; i < size; ++i)
+    {
+        if(lhs[i].type != rhs[i].type)
+            return 0;
+        if(lhs[i].type == 'f' &&
+           memcmp(&lhs[i].val.f, &rhs[i].val.f, sizeof(float)))
+            return 0;
+        if(lhs[i].type == 'd' &&
+           memcmp(&lhs[i].val.d, &rhs[i].val.d, sizeof(double)))
+            return 0;
+    }
+    return 1;
+}
+
 //! Returns whether @a lhs + @a delta leaves the value range of its type.
 //! The scanner can not reconstruct ranges that wrap around.
 static int range_step_overflows(const rtosc_arg_val_t* lhs,
@@ -429,7 +453,7 @@ static int32_t rtosc_convert_to_range(const rtosc_arg_val_t* const arg,
     int has_delta;
     rtosc_arg_val_t delta, added;
 
-    if(rtosc_arg_vals_eq_single(arg, arg + incsize(arg), NULL))
+    if(range_args_identical(arg, arg + incsize(arg)))
         has_delta = 0;
     else if(strchr(numeric_range_convertible_types(), arg->type)) {
         has_delta = 1;
@@ -453,9 +477,9 @@ static int32_t rtosc_convert_to_range(const rtosc_arg_val_t* const arg,
                 rtosc_arg_val_add(arg+skipped, &delta, &added);
             }
 
-            if(next >= size || !rtosc_arg_vals_eq_single(has_delta ? &added
-                                                                   : arg,
-                                                         arg+next, NULL))
+            if(next >= size ||
+               !(has_delta ? rtosc_arg_vals_eq_single(&added, arg+next, NULL)
+                           : range_args_identical(arg, arg+next)))
                 go_on = false;
         }
     }
